@@ -62,13 +62,19 @@ CLAIMED["C02"] = dict(
           "context-trimming step (model of _trim_common_context) only trims what is common to target and new text, so "
           "replacing the trimmed middle reproduces the new text (replaces 'every pair up to a length bound'). Tie: the "
           "model is compared with the real function exhaustively over all pairs of short strings over {a,b,space,newline,"
-          "*,_,#} and on random pairs every run. The engine clause (all exact unique non-overlapping edits applied, "
-          "accepted text == string replacement, any order) is decided by an independent oracle on generated documents x "
-          "batches x all orders (reading the saved package with the independent reader); its Lean statement about the "
-          "engine model is not proved yet, so for that clause this check gives exploration-level assurance."),
+          "*,_,#} and on random pairs every run. C02_located_where_read / C02_located_in_accepted_view: a searched target "
+          "that is an exact piece of the raw extracted text (touching no deletion) is located at its first occurrence "
+          "there with its own length, one that runs across deleted text at its occurrence in the accepted view - both "
+          "before any fuzzy lookup, whatever the fuzzy matchers return. The searched path (Adeu.Doc.applyEdits) is compared "
+          "with the real engine on one order of every generated batch (whole saved document). The engine clause (all exact "
+          "unique non-overlapping edits applied, accepted text == string replacement, any order) is decided by an "
+          "independent oracle on generated documents x batches x all orders — targets at every position relative to run / "
+          "format / tab / deletion / insertion / cell / paragraph boundaries, quoted with or without formatting markers — "
+          "reading the saved package with the independent reader; there is no composition theorem for the accepted text "
+          "of a whole batch, so for that clause this check gives exploration-level assurance on top of the correspondence."),
     note=NOTE_COMMON + "targets are made of real characters only and are unique in both views (also whitespace/marker-"
          "normalised); str.isspace is a parameter (table compared per run).",
-    technique="Lean 4 proof of the trim contract + exhaustive differential correspondence; oracle-based exploration for the engine clause",
+    technique="Lean 4 proofs (trim contract for all strings; lookup order of the searched path) + exhaustive / whole-document differential correspondence; oracle-based exploration for the accepted-text clause",
     design="§5 C02")
 CLAIMED["C04"] = dict(
     text=("Lean theorems about the reader model (Adeu.Doc.extractText): C04_clean_complete (accepted view of a paragraph = "
@@ -85,35 +91,46 @@ CLAIMED["C04"] = dict(
 ENGINE_TIE = ("Tie: the Lean engine model (Adeu.Doc.applyEditsIndexed / Sess.applyActions: anchors, run splitting, tracked "
               "deletion/insertion, multi-line and heading insertions, comments, review actions) is compared with the real "
               "engine on every generated case — whole saved package read back by an independent reader, run boundaries, "
-              "revision ids and the four comment lists included (ids/dates renamed order-preservingly). ")
+              "revision ids and the four comment lists included (ids/dates renamed order-preservingly). The searched "
+              "(heuristic) path is modelled too (Adeu.Doc.applyEdits: literal matching stages, raw/accepted-view lookup "
+              "order, context trimming, nested-in-insertion rewrite, conflict ranges) and compared on every submitted batch, "
+              "with the result of the non-literal matchers recorded from the real call as a parameter. ")
 CLAIMED["C01"] = dict(
-    text=("Lean theorems on the building blocks of the engine model: C01_split_neutral_core (run splitting keeps every "
-          "child once, in order), C01_delete_restores_core, C01_reject_restores_core (a tracked replacement is undone "
-          "exactly by rejecting the session's marks; everything else in place), C01_session_ids_fresh. " + ENGINE_TIE +
+    text=("Lean theorems. For every mixed batch (indexed + searched edits, any matcher results): C01_skeleton_retained (every "
+          "story keeps its skeleton: paragraph styles / properties, tables with properties, grid, rows, cells, other blocks, "
+          "in order; only paragraphs are added) and C01_existing_comments_retained. On the building blocks: "
+          "C01_split_neutral_core (run splitting keeps every child once, in order), C01_delete_restores_core, "
+          "C01_reject_restores_core (a tracked replacement is undone exactly by rejecting the session's marks; everything "
+          "else in place), C01_session_ids_fresh. " + ENGINE_TIE +
           "Independent oracle: reject the session's marks in the saved package and compare the canonical content "
-          "stream with the input (all edit kinds, heuristic and indexed paths). The composition inside applyIndexed and "
-          "the heuristic matching layer are covered by correspondence + oracle, not by a theorem."),
+          "stream with the input (all edit kinds, heuristic and indexed paths). That rejecting the session's marks "
+          "restores the children of every paragraph after a whole batch is decided by correspondence + oracle."),
     note=NOTE_COMMON + "the documented exception (edit inside someone else's pending insertion) is outside this check's batches.",
-    technique="Lean 4 proofs on the engine model's building blocks + whole-document differential correspondence + reversibility oracle",
+    technique="Lean 4 proofs (whole-batch frame theorem by induction over the engine model; building blocks) + whole-document differential correspondence + reversibility oracle",
     design="§5 C01")
 CLAIMED["C06"] = dict(
     text=("Lean theorems about accept/reject on paragraph children: C06_accept_effect, C06_reject_effect, C06_isolation, "
           "C06_commute (all four combinations, distinct ids), C06_unknown_skipped, C06_resolved_once, C06_counts, "
-          "C06_accept_each_eq_acceptAll — all documents, all sequences. " + ENGINE_TIE + "Oracle: per-character "
+          "C06_accept_each_eq_acceptAll — all documents, all sequences; and on the whole main story (tables included): "
+          "C06_commute_doc, C06_unknown_skipped_doc, C06_skeleton_untouched_doc. " + ENGINE_TIE + "Oracle: per-character "
           "reference semantics on the independent reader's view, counts, accept-each == accept-all == accepted view; "
           "random and exhaustive short action sequences incl. unknown / malformed / quoted ids."),
     note=NOTE_COMMON + "changes inside headers/footers cannot be addressed (only the main part is searched).",
     technique="Lean 4 proof (commutation, idempotence, isolation by induction over children) + differential correspondence",
     design="§5 C06")
 CLAIMED["C08"] = dict(
-    text=("Lean theorems: C08_total (applied + skipped = submitted, every indexed batch), C08_skip_leaves_only_splits_core, "
+    text=("Lean theorems about Adeu.Doc.applyEdits (mixed batches: indexed + searched edits): C08_total, C08_total_mixed "
+          "(applied + skipped = submitted, unconditional), C08_skip_empty_target, C08_skip_not_found (target literally in "
+          "neither extracted view and no non-literal match => skipped, session untouched), C08_skipped_leaves_no_trace / "
+          "C08_skipped_indexed_leaves_no_trace (whatever the reason, a skipped edit leaves canonical content, comment "
+          "lists and counters as they were), C08_all_skipped_unchanged, C08_skip_leaves_only_splits_core, "
           "C08_no_nesting_core. " + ENGINE_TIE + "Oracle on conflict-heavy batches (duplicate, overlapping, nested, "
           "inside-deleted, not-found, empty-target, odd characters): never raises, totals, all-skipped => content unchanged, "
           "accepted result == input with a non-conflicting subset of size `applied` (exhaustive subset search), no nesting. "
-          "'Never raises' and the conflict-subset clause of the heuristic layer are runtime/oracle-observed (exploration-"
-          "level for that clause). One open finding (F-fuzzy-after-conflict)."),
+          "'Never raises', the conflict-subset clause and 'no mark nested in another' for whole batches are "
+          "runtime/oracle-observed (exploration-level for those clauses). One open finding (F-fuzzy-after-conflict)."),
     note=NOTE_COMMON + "totality on the model side is by construction; exceptions of the real code are observed per case.",
-    technique="Lean 4 proof of the accounting invariant + differential correspondence + subset-search oracle",
+    technique="Lean 4 proofs (accounting invariant, skip-frame theorem through every branch of the engine model, fold invariant for all-skipped batches) + differential correspondence + subset-search oracle",
     design="§5 C08")
 CLAIMED["C09"] = dict(
     text=("Lean theorems: C09_mark_attribution (author/date/id of every created mark), C09_ids_fresh (new ids exceed every "
@@ -121,13 +138,14 @@ CLAIMED["C09"] = dict(
           "once in each of the four lists), C09_deltext_only_in_del. " + ENGINE_TIE + "Oracle: package validator on the "
           "saved bytes after edit batches, review actions, replies and a second round by another author (zip, "
           "well-formedness, content types, relationship targets, id uniqueness, ISO dates, nesting, comment triples, "
-          "auxiliary parts). One open finding (F-reply-anchor-in-insertion)."),
+          "auxiliary parts; ids counted over every mark of a part, tracked paragraph marks and rows included)."),
     note=NOTE_COMMON + "random paragraph/durable ids are placeholders in the model (collision freedom not proved).",
     technique="Lean 4 proof of id freshness / attribution + differential correspondence + package validator oracle",
     design="§5 C09")
 CLAIMED["C10"] = dict(
     text=("Lean theorems: C10_one_new_comment (exactly one appended comment with the text and the session's author, "
-          "existing comments and stories untouched), C10_anchor_encloses, C10_reply_unknown_skipped. " + ENGINE_TIE +
+          "existing comments and stories untouched), C10_existing_untouched (for every mixed batch the existing entries of "
+          "all four comment lists are a prefix of the result's), C10_anchor_encloses, C10_reply_unknown_skipped. " + ENGINE_TIE +
           "Oracle: every applied commented edit (replacement, insertion, deletion, multi-line, heading) has exactly one "
           "new comment anchored on its own marks and shown with them in the raw view; replies threaded and shown with "
           "their thread; unknown parents skipped."),
@@ -226,10 +244,12 @@ CLAIMED["C07"] = dict(
     text=("Lean theorems by induction over the list of rounds (all documents, all histories): C07_accounting (every round "
           "reports applied + skipped = its number of requests), C07_ids_fresh_every_round (in every document a history "
           "reaches, the ids a new session hands out exceed every numeric revision id present — input's and earlier "
-          "rounds', any author, main part and reachable headers/footers), C07_pending_resolvable, C07_accept_all_clean; the "
+          "rounds', any author, main part and reachable headers/footers), C07_history_frame (over any history every story "
+          "keeps its skeleton and every comment entry stays in place), C07_pending_resolvable, C07_accept_all_clean; the "
           "single-step theorems of C01/C06/C08/C09/C10 hold for every document, hence for every reached one. Model: "
           "Adeu.Doc.runHistory = fold of stepDoc (a new session opened on the saved document of the previous round). "
-          "Correspondence: every round of every real history vs stepDoc on the independently read reached document; "
+          "Correspondence: every round of every real history vs stepDoc on the independently read reached document, and "
+          "every edit round as submitted (searched targets) vs Adeu.Doc.applyEdits; "
           "histories whose edits are addressed by offset (no comments) as a whole vs runHistory (counts per round, final "
           "document). Oracle per round relative to the document before it: reversibility, accepted text == string "
           "replacement, counts, only the addressed change, replies threaded, package validity with unique ids; at the end "
